@@ -895,12 +895,15 @@ def run_C15(tier, rng, chk):
         L = []
         for l in gg.preamble(register="none"):
             L.append(l)
-            L.append("1" + l[1:])
+            if " U " not in l:
+                L.append("1" + l[1:])
+        # the twin: every callback registered (function 1), no script, its own user data
+        for f in range(12):
+            L.append("1 R %d 1" % f)
+        L.append("1 U 4242")
         for f in range(12):
             if rng.random() < 0.8:
                 L.append("0 R %d %d" % (f, rng.randrange(1, 4)))
-            if rng.random() < 0.5:
-                L.append("1 R %d %d" % (f, rng.randrange(1, 4)))
         for cid in (1, 2, 3):
             for _ in range(rng.choice([0, 1, 1, 2, 3])):
                 if rng.random() < 0.7:
@@ -921,12 +924,12 @@ def run_C15(tier, rng, chk):
             L.append(l)
             L.append("1" + l[1:])
             L.append("?s 0 1")
+            L.append("?r 0 1")
         rs.append(("c15_reent_%d" % i, L))
     out = chk.run_stream(rs, prop="-", twin=True)
     res.append(fam("re-entrant registration (callbacks call rdsparser_register_* / set_user_data on their own parser from inside the callback; "
-                   "model = replay of the call's notifications through the evolving table; twin without scripts)", rs, out, twin=True,
-                   observer="-", owns_events=True,
-                   owned_keys=["pi", "pty", "tp", "ta", "ms", "ecc", "country", "af", "ps", "rt0", "rt1", "ptyn", "cfg", "ret", "alive"]))
+                   "expected notifications = replay (Reent.v) of the notifications of a twin with every callback registered, through the "
+                   "evolving table: both sides from the library, so decoding cancels out)", rs, out, twin=True, observer="-"))
     return res
 
 
